@@ -462,6 +462,10 @@ def _mean_kw(s, nb, fmax):
 def _wit_mean_random(nb):
     import numpy as np
     f = np.array([0.0, 0.03, 0.05, 0.08, 0.1, 0.15, 0.22, 0.3, 0.45, 0.5, 0.8])
+    if nb == 1:
+        f[0] = 0.01     # a one-bin window at f = 0 has mean 0 (0/0 in the measure): outside the precondition
+    if nb > 3:          # room for several windows of nb bins below fmax
+        f = np.concatenate([[0.0], 0.01 + 0.5 * np.arange(1, nb + 9) / (nb + 6)])
     E = np.random.default_rng(21 + nb).random((3, len(f))) + 0.01
     return _mean_kw(_mean_spectrum(E, f), nb, 0.5)
 
@@ -469,9 +473,10 @@ def _wit_mean_random(nb):
 def _wit_mean_clipped(nb):
     """the flattest window is the last one compared and starts above nf - 2 nb: the code's clip (nf - 1 - nb) repeats a bin"""
     import numpy as np
-    f = np.linspace(0.05, 0.6, 12)
-    E = (np.random.default_rng(3).random((2, 12)) + 0.5) * f[None, :] ** -4.0
-    E[:, 12 - nb - 1:] = 2.5e-4 * f[None, 12 - nb - 1:] ** -4.0          # exactly flat E f^4 on the last nb + 1 bins
+    N = max(12, 2 * nb + 4)
+    f = np.linspace(0.05, 0.6, N)
+    E = (np.random.default_rng(3).random((2, N)) + 0.5) * f[None, :] ** -4.0
+    E[:, N - nb - 1:] = 2.5e-4 * f[None, N - nb - 1:] ** -4.0          # exactly flat E f^4 on the last nb + 1 bins
     return _mean_kw(_mean_spectrum(E, f), nb, 5.0)
 
 
@@ -479,7 +484,7 @@ def _wit_mean_power_law(nb):
     """exact c f^-4 in floating point (frequencies and levels are powers of two): every window measure is exactly 0, the first
     window is selected by the code and by the executable twin alike"""
     import numpy as np
-    f = 2.0 ** np.arange(-6, 3)
+    f = 2.0 ** np.arange(-6, -6 + max(9, nb + 3))
     c = np.array([2.0 ** -13, 3 * 2.0 ** -14])
     return _mean_kw(_mean_spectrum(c[:, None] / f[None, :] ** 4, f), nb, 0.5)
 
@@ -495,7 +500,7 @@ def _mean_samples(rng, tier):
     out = []
     for _ in range(20 if tier == "quick" else 200):
         nb = int(rng.choice(MEAN_BINS))
-        nf = int(rng.integers(nb + 1, 16))
+        nf = int(rng.integers(nb + 1, max(16, nb + 8)))
         f = np.cumsum(rng.uniform(0.01, 0.08, nf)) + (0.0 if rng.random() < 0.3 else rng.uniform(0.0, 0.05)) - 0.01
         f[0] = max(f[0], 0.0)
         E = (rng.random((int(rng.integers(1, 4)), nf)) + 0.05) * 10 ** rng.uniform(-4, 0)
@@ -505,7 +510,12 @@ def _mean_samples(rng, tier):
     return out
 
 
-MEAN_BINS = (2, 3)
+import os as _os
+TIERED = True
+# number_of_bins instances by tier (the window is unrolled: obligation size grows with nb); C12_BINS="5 8" overrides (debugging)
+MEAN_BINS = (1, 2, 3, 4, 20) if _os.environ.get("VERIF_TIER", "quick") != "thorough" else tuple(range(1, 21))
+if _os.environ.get("C12_BINS"):
+    MEAN_BINS = tuple(int(x) for x in _os.environ["C12_BINS"].split())
 _only = lambda nb: {f"bins{nb}"}
 equilibrium_mean = Contract(
     W + "equilibrium_range_values", label="equilibrium_range_values.mean", instances=[(f"bins{nb}", _p_eq_mean(nb)) for nb in MEAN_BINS],
